@@ -303,6 +303,7 @@ func evalClauseConcrete(e *Engine, u *Unit, o *Obligation, fn *ssa.Function, par
 		return false, "clause not found for " + o.Name
 	}
 	cu := e.newUnit("replay-eval")
+	cu.concrete = true
 	pre := newConcState(cu, 1)
 	post := newConcState(cu, 1)
 	vars := map[string]Val{}
